@@ -36,6 +36,43 @@ REGISTRY = {
 }
 
 
+VARIANT = 'python -O, valjean logger at DEBUG, another working directory'
+
+
+def _start_variant(args):
+    """The same check once more, at the same time, in a process whose environment differs in ways no property depends on:
+    assertions stripped (python -O), the valjean logger at DEBUG (records discarded), another working directory.  The
+    properties are statements about valjean, not about how the interpreter was started."""
+    if os.environ.get('VERIF_ENV_VARIANT') or os.environ.get('VERIF_VARIANT', '1') == '0':
+        return None
+    import subprocess
+    cwd = tlc.workdir('cwd')
+    return subprocess.Popen([sys.executable, '-O', '-W', 'ignore', os.path.abspath(__file__), args.pid, '--tier', args.tier, '--no-evidence'],
+                            env=dict(os.environ, VERIF_ENV_VARIANT=VARIANT), cwd=cwd, stdout=subprocess.PIPE, stderr=subprocess.STDOUT, text=True)
+
+
+def _join_variant(child, ctx):
+    if child is None:
+        return 0
+    try:
+        out, _ = child.communicate(timeout=6 * 3600)
+    except Exception:  # pylint: disable=broad-except
+        child.kill()
+        out = ''
+    lines = out.splitlines()
+    summary = next((l for l in reversed(lines) if ' tier=' in l and 'wall=' in l), '')
+    ctx.cov['environment_variant'] = dict(variant=VARIANT, exit=child.returncode, summary=summary)
+    if child.returncode == 1:
+        print('In the environment variant (%s):' % VARIANT)
+        for l in lines:
+            if l.startswith('VIOLATION') or l.startswith('  key='):
+                print(l)
+        return 1
+    if child.returncode != 0:
+        ctx.drift('the run in the environment variant (%s) did not complete (exit %s): %s' % (VARIANT, child.returncode, ' | '.join(lines[-3:])[:300]))
+    return 0
+
+
 def main():
     ap = argparse.ArgumentParser()
     ap.add_argument('pid')
@@ -50,6 +87,12 @@ def main():
         if args.replay:
             with open(args.replay) as f:
                 rep = json.load(f)
+            if rep.get('variant') and not os.environ.get('VERIF_ENV_VARIANT'):
+                import subprocess
+                r = subprocess.run([sys.executable, '-O', '-W', 'ignore', os.path.abspath(__file__)] + sys.argv[1:],
+                                   env=dict(os.environ, VERIF_ENV_VARIANT=rep['variant']))
+                sys.stdout.flush()
+                os._exit(r.returncode)
             mod = importlib.import_module(rep['module'])
             ok, detail = getattr(mod, rep['fn'])(rep['case'])
             print('replay %s: %s -- %s' % (args.replay, 'property holds' if ok else 'VIOLATION reproduced', detail))
@@ -59,8 +102,10 @@ def main():
         else:
             modname, fn = REGISTRY[args.pid]
             mod = importlib.import_module(modname)
+            child = _start_variant(args)
             ctx = core.Ctx(args.pid, tier=args.tier, seed=seed, write_evidence=not args.no_evidence)
             getattr(mod, fn)(ctx)
+            ctx.variant_failed = _join_variant(child, ctx) == 1
             rc = ctx.finish()
     except tlc.MachineryError as ex:
         print('MACHINERY-ERROR %s: %s' % (args.pid, ex))
